@@ -3001,9 +3001,17 @@ coap_handle_request_put_block(coap_context_t *context,
   lg_srcv->last_mid = pdu->mid;
   lg_srcv->last_type = pdu->type;
 
+  saved_num = block.num;
+  if (!block.bert && block.szx > lg_srcv->szx) {
+    /*
+     * Block size is getting forced down - the remaining blocks will arrive
+     * using the smaller size, so track this block in those units.
+     */
+    block.num <<= block.szx - lg_srcv->szx;
+    block.szx = lg_srcv->szx;
+  }
   chunk = (size_t)1 << (block.szx + 4);
   update_data = 0;
-  saved_num = block.num;
   saved_offset = offset;
 
   while (offset < saved_offset + length) {
